@@ -19,6 +19,7 @@ import (
 	pb "github.com/enfein/mieru/v3/pkg/appctl/appctlpb"
 	"github.com/enfein/mieru/v3/pkg/common"
 	"google.golang.org/protobuf/proto"
+	"google.golang.org/protobuf/reflect/protoreflect"
 	"pgregory.net/rapid"
 
 	"verif/harness/e2e"
@@ -810,7 +811,7 @@ func TestC20Server(t *testing.T) {
 // ---- malformed text -------------------------------------------------------------
 
 type TextCase struct {
-	Kind   int    `json:"kind"` // 0 random, 1 mutated valid mieru://, 2 mutated valid mierus://, 3 scheme-ish short strings, 4 JSON-ish
+	Kind   int    `json:"kind"` // 0 random, 1 mutated valid mieru://, 2 mutated valid mierus://, 3 scheme-ish short strings, 4 JSON-ish, 5 a structurally well-formed configuration whose field values are hostile
 	Text   string `json:"text"`
 	Cut    int    `json:"cut"`
 	Insert string `json:"insert"`
@@ -831,8 +832,21 @@ func init() {
 }
 
 func genTextCase(t *rapid.T) TextCase {
-	c := TextCase{Kind: rapid.IntRange(0, 4).Draw(t, "kind")}
+	c := TextCase{Kind: rapid.SampledFrom([]int{0, 1, 2, 3, 4, 5, 5, 5}).Draw(t, "kind")}
 	switch c.Kind {
+	case 5:
+		var m proto.Message = &pb.ServerConfig{}
+		if rapid.Bool().Draw(t, "clientConfig") {
+			m = &pb.ClientConfig{}
+		}
+		genFields(t, m.ProtoReflect(), 0)
+		b, err := common.MarshalJSON(m)
+		if err != nil {
+			b = []byte("{}")
+		}
+		c.Text = string(b)
+		c.Cut, c.Insert, c.At = -1, "", 0
+		return c
 	case 0:
 		c.Text = rapid.String().Draw(t, "text")
 	case 1:
@@ -848,6 +862,81 @@ func genTextCase(t *rapid.T) TextCase {
 	c.Insert = rapid.SampledFrom([]string{"", "", "%", "%zz", "\x00", "=", "&port=0", "é", "//", "@", "[", "]", " "}).Draw(t, "insert")
 	c.At = rapid.IntRange(0, 300).Draw(t, "at")
 	return c
+}
+
+var hostileStrings = []string{"", "", ".", "a.", ".a", "*", "a", "example.com", "localhost", "1.2.3.4", "1.2.3.4/33", "10.0.0.0/8", "::1", "0", "-", "1-", "-1", "65536", "2012-2022", "9-1", "30s", "0s", "x", "\x00", "é", " ", "zz", "00ff", strings.Repeat("a", 300)}
+
+// genFields fills a configuration message field by field: every field is
+// independently left unset or set to a value from a table of boundary and
+// nonsense values of its kind (repeated fields get 0..3 elements, messages
+// are filled recursively).
+func genFields(t *rapid.T, m protoreflect.Message, depth int) {
+	fds := m.Descriptor().Fields()
+	for i := 0; i < fds.Len(); i++ {
+		fd := fds.Get(i)
+		if rapid.IntRange(0, 2).Draw(t, "set") == 0 {
+			continue
+		}
+		value := func() (protoreflect.Value, bool) {
+			switch fd.Kind() {
+			case protoreflect.StringKind:
+				return protoreflect.ValueOfString(rapid.SampledFrom(hostileStrings).Draw(t, "str")), true
+			case protoreflect.Int32Kind, protoreflect.Sint32Kind, protoreflect.Sfixed32Kind:
+				return protoreflect.ValueOfInt32(rapid.SampledFrom([]int32{0, -1, 1, 1024, 1279, 1280, 1500, 1501, 65535, 65536, 1<<31 - 1, -1 << 31}).Draw(t, "i32")), true
+			case protoreflect.Int64Kind:
+				return protoreflect.ValueOfInt64(rapid.SampledFrom([]int64{0, -1, 1, 1 << 40}).Draw(t, "i64")), true
+			case protoreflect.Uint32Kind:
+				return protoreflect.ValueOfUint32(rapid.SampledFrom([]uint32{0, 1, 1 << 31}).Draw(t, "u32")), true
+			case protoreflect.BoolKind:
+				return protoreflect.ValueOfBool(rapid.Bool().Draw(t, "b")), true
+			case protoreflect.EnumKind:
+				n := fd.Enum().Values().Len()
+				return protoreflect.ValueOfEnum(protoreflect.EnumNumber(rapid.IntRange(0, n).Draw(t, "enum"))), true
+			case protoreflect.BytesKind:
+				return protoreflect.ValueOfBytes([]byte(rapid.SampledFrom(hostileStrings).Draw(t, "bytes"))), true
+			case protoreflect.MessageKind:
+				if depth >= 5 {
+					return protoreflect.Value{}, false
+				}
+				sub := dynamicNew(m, fd)
+				genFields(t, sub, depth+1)
+				return protoreflect.ValueOfMessage(sub), true
+			}
+			return protoreflect.Value{}, false
+		}
+		switch {
+		case fd.IsMap():
+			mp := m.Mutable(fd).Map()
+			for k := rapid.IntRange(0, 2).Draw(t, "nMap"); k > 0; k-- {
+				key := protoreflect.ValueOfString(rapid.SampledFrom(hostileStrings).Draw(t, "mapKey")).MapKey()
+				if fd.MapValue().Kind() == protoreflect.StringKind {
+					mp.Set(key, protoreflect.ValueOfString(rapid.SampledFrom(hostileStrings).Draw(t, "mapVal")))
+				}
+			}
+		case fd.IsList():
+			l := m.Mutable(fd).List()
+			for k := rapid.IntRange(0, 3).Draw(t, "nList"); k > 0; k-- {
+				if fd.Kind() == protoreflect.MessageKind {
+					if depth >= 5 {
+						break
+					}
+					sub := l.NewElement().Message()
+					genFields(t, sub, depth+1)
+					l.Append(protoreflect.ValueOfMessage(sub))
+				} else if v, ok := value(); ok {
+					l.Append(v)
+				}
+			}
+		default:
+			if v, ok := value(); ok {
+				m.Set(fd, v)
+			}
+		}
+	}
+}
+
+func dynamicNew(parent protoreflect.Message, fd protoreflect.FieldDescriptor) protoreflect.Message {
+	return parent.NewField(fd).Message()
 }
 
 func (c TextCase) text() string {
